@@ -191,6 +191,35 @@ where
                 });
             }
         }
+        // ---- C06: real-clock runs
+        if let Some(ms) = scn.timeout_ms {
+            let limit_ms = match (&o.call, scn.params.kind) {
+                (Call::Solve(_), _) | (Call::Construct(_), PlannerKind::Prm) => Some(ms as f64),
+                _ => None,
+            };
+            if let Some(l) = limit_ms {
+                let took = o.wall_ns as f64 / 1e6;
+                // allowance: the iteration in flight + scheduling noise
+                if took > l + 250.0 && !matches!(o.resp, Resp::Panic(_)) {
+                    f.push(Finding {
+                        property: "C06",
+                        class: "deadline_overrun".into(),
+                        what: format!("{} took {took:.1} ms with a limit of {l} ms", crate::run::call_json(&o.call)),
+                        call: ci,
+                    });
+                }
+            }
+            if scn.classes.iter().any(|c| c == "infeasible") && cur_p == Some(0) && cur_v == Some(0) {
+                if let Resp::Path(_) = &o.resp {
+                    f.push(Finding {
+                        property: "C06",
+                        class: "path_in_infeasible_world".into(),
+                        what: "a path was returned although the whole goal region is invalid".into(),
+                        call: ci,
+                    });
+                }
+            }
+        }
         let (Some(p), Some(v)) = (cur_p, cur_v) else { continue };
         let prob = &scn.problems[p];
         let chk = &scn.checkers[v];
